@@ -36,6 +36,12 @@ RULE = ('Hypothesis draws a pool of 1-6 clients (sizes 0-9, rows k/8 with |k|<=8
         'per-client keys, and a permutation of each cohort. Non-trivial: >=2 '
         'clients of different sizes in some round, some size not divisible by '
         'batch_size, and >=2 local steps for some client.')
+RULE += (
+    ' '
+    'Later widenings: batch sizes up to 8; a sixth of the cohorts lists one client twice (cou'
+    'nted per occurrence); client ids rotate among the pool between rounds; the float64 refer'
+    "ence re-checks that the batch stream it reads consists of passes over the client's examp"
+    'les; one check runs in a child interpreter with JAX_ENABLE_X64=1.')
 ASSUMPTIONS = [
     'the per-client batch stream is taken from ClientDataset.shuffle_repeat_batch '
     'with the same integer seed (the stream itself is decided by C04)',
